@@ -41,7 +41,8 @@ Inductive impl_build :=
 | BOk (k : skel) (dom ran : sp) (lin func : bool) | BTypeErr | BZeroDiv | BOther.
 
 (* p_alias: does the out-of-place result share memory with x (np.shares_memory)? *)
-Record point := { p_x : vec; p_out : vec; p_ip : option vec; p_alias : bool }.
+(* p_xx: contents of x after  o(x, out=x)  (None when domain <> range or the call raised) *)
+Record point := { p_x : vec; p_out : vec; p_ip : option vec; p_alias : bool; p_xx : option vec }.
 (* c_kon: memory contract (result fresh?, in-place alias-safe?) of the leaf with each l_id *)
 Record case := { c_vt : variant; c_kon : list (bool * bool); c_expr : sexpr T; c_build : impl_build;
                  c_points : list point }.
@@ -66,7 +67,15 @@ Definition mem_ok (kon : nat -> lcontract) (o : oexpr T) (r : sp) (p : point) : 
      | None, _ => true
      end
   && match unp (sget st4 0) with Some x' => vcl (p_x p) x' && vcl x' (p_x p) | None => false end
-  && match r with SV _ => Bool.eqb (Nat.eqb r1 0) (p_alias p) | SF => true end.
+  && match r with SV _ => Bool.eqb (Nat.eqb r1 0) (p_alias p) | SF => true end
+  (* out aliased to x: whenever the contract computed from the leaves' flags ([oalias]) says the
+     object tolerates it, the real object must produce the value (ProofsMem.ip_sound with x = out) *)
+  && match p_xx p with
+     | Some y => if oalias kon o
+                 then match unp (sget (ip kon o st0 0 0) 0) with Some y' => vcl y y' | None => false end
+                 else true
+     | None => true
+     end.
 
 Definition check (k : case) : bool :=
   let s := c_expr k in let vt := c_vt k in
